@@ -8,10 +8,12 @@ import GB.C19.Model
 
     bin  x<v>                                             => none | some:x<bytes>
     filt req|resp|trl  <OPTS> m:<md>                      => m:<out>
-    fwd  <OPTS> m:<ctx md> m:<target hdr> m:<target trl> unary|stream
+    fwd  <OPTS> m:<ctx md> m:<target hdr> m:<target trl> <MODE>
                                                           => out=m:… dl=none|<sec> hdr=m:… trl=m:…|unset
-    e2e  <entry> <OPTS> m:<sent hdr> p:<query md | lines> m:<target hdr> m:<target trl> unary|stream
+    e2e  <entry> <OPTS> m:<sent hdr> p:<query md | lines> m:<target hdr> m:<target trl> <MODE>
                                                           => fwd=0 | fwd=1 seen=m:… out=m:… dl=… ch=m:… ct=m:…
+  <MODE> = unary|stream[:h<0|1>m<n><k|e>]  — how the scripted target's stream ends: header block sent (h1) or
+           Trailers-Only (h0), n messages, then io.EOF (k) or an error status (e); default unary = h1m1k, stream = h1m2k
   <OPTS> = l:<allowReq> x<prefixReq> l:<allowResp> x<prefixResp> l:<allowTrl> x<prefixTrl>
 -/
 namespace GB.C07
@@ -83,6 +85,23 @@ def ctKey : Bytes := ascii "Content-Type"
 def ownCT : List Bytes := [ascii "application/json", ascii "application/grpc-web+proto", ascii "text/plain; charset=utf-8"]
 def own (K v : Bytes) : Bool := K == ctKey && ownCT.contains v
 
+/-- `unary` / `stream` / `unary:h0m0e` … ⇒ (streaming, script, label) -/
+def parseMode (m : String) : Option (Bool × Script × String) :=
+  match m.splitOn ":" with
+  | [k] =>
+    if k == "unary" then some (false, { hdrSent := true, msgs := 1, ok := true }, "unary-h1m1k")
+    else if k == "stream" then some (true, { hdrSent := true, msgs := 2, ok := true }, "stream-h1m2k")
+    else none
+  | [k, sc] =>
+    if k != "unary" && k != "stream" then none else
+    match sc.toList with
+    | ['h', hd, 'm', md, en] =>
+      if (hd == '0' || hd == '1') && md.isDigit && (en == 'k' || en == 'e') then
+        some (k == "stream", { hdrSent := hd == '1', msgs := md.toNat - '0'.toNat, ok := en == 'k' }, k ++ "-" ++ sc)
+      else none
+    | _ => none
+  | _ => none
+
 def isOpt (o : Opts) : String :=
   if o.allowReq.isEmpty && o.allowResp.isEmpty && o.allowTrl.isEmpty then "deny" else "cfg"
 
@@ -131,36 +150,37 @@ def handle : Handler
     | _ => "BAD filt line"
   | "fwd" :: rest, outs =>
     match parseOpts rest with
-    | some (o, [cS, hS, tS, mode]) =>
-      match parseM cS, parseM hS, parseM tS, field outs "out", field outs "dl", field outs "hdr", field outs "trl" with
-      | some c, some h, some t, some outS, some dl, some ohS, some otS =>
+    | some (o, [cS, hS, tS, modeS]) =>
+      match parseMode modeS, parseM cS, parseM hS, parseM tS, field outs "out", field outs "dl", field outs "hdr", field outs "trl" with
+      | some (streaming, sc, mode), some c, some h, some t, some outS, some dl, some ohS, some otS =>
         match parseM outS, parseM ohS with
         | some out, some oh =>
           let (mOut, mDl) := forwardRequest o c
           match judgeReq true o (flatten c) mOut mDl out dl with
           | some v => v
           | none =>
-            let mh := filterResponseMD o h
-            let mt := filterTrailerMD o t
-            if !(respSpec o.allowResp o.prefixResp h oh) then s!"VIOL SetHeader got metadata not on the response allow-list model={showMD mh}"
+            let (mh, mt?, mn) := forwardResponse o streaming sc h t
+            let mtS := match mt? with | none => "unset" | some m => showMD m
+            let ok := fun (nt : String) => s!"OK{nt} b=fwd-{mode}-{isOpt o}-{if mDl.isSome then "dl" else "nodl"}"
+            -- the header block the target actually sent (empty for Trailers-Only) is the only licence for SetHeader
+            if !(respSpec o.allowResp o.prefixResp (sc.header h) oh) then s!"VIOL SetHeader got metadata that the response allow-list does not license from the target's header block model={showMD mh}"
             else if sortMD oh != sortMD mh then s!"DIFF model=hdr:{showMD mh}"
+            else if field outs "sent" != none && field outs "sent" != some (toString mn) then s!"DIFF model=sent:{mn}"
             else match (if otS == "unset" then some none else (parseM otS).map some) with
               | none => "BAD trl"
-              | some none => s!"DIFF model=trl:{showMD mt}"
+              | some none => if mt?.isNone then ok (if mOut.isEmpty && mh.isEmpty && mDl.isNone then "" else " nt") else s!"DIFF model=trl:{mtS}"
               | some (some ot) =>
-                if !(respSpec o.allowTrl o.prefixTrl t ot) then s!"VIOL SetTrailer got metadata not on the trailer allow-list model={showMD mt}"
-                else if sortMD ot != sortMD mt then s!"DIFF model=trl:{showMD mt}"
-                else
-                  let nt := if mOut.isEmpty && mh.isEmpty && mt.isEmpty && mDl.isNone then "" else " nt"
-                  s!"OK{nt} b=fwd-{mode}-{isOpt o}-{if mDl.isSome then "dl" else "nodl"}"
+                if !(respSpec o.allowTrl o.prefixTrl t ot) then s!"VIOL SetTrailer got metadata not on the trailer allow-list model={mtS}"
+                else if mt?.map sortMD != some (sortMD ot) then s!"DIFF model=trl:{mtS}"
+                else ok (if mOut.isEmpty && mh.isEmpty && ot.isEmpty && mDl.isNone then "" else " nt")
         | _, _ => "BAD fwd out md"
-      | _, _, _, _, _, _, _ => "BAD fwd fields"
+      | _, _, _, _, _, _, _, _ => "BAD fwd fields"
     | _ => "BAD fwd line"
   | "e2e" :: en :: rest, outs =>
     match parseEntryName en, parseOpts rest with
-    | some e, some (o, [sS, pS, hS, tS, mode]) =>
-      match parseM sS, parseP pS, parseM hS, parseM tS with
-      | some _sent, some ps, some h, some t =>
+    | some e, some (o, [sS, pS, hS, tS, modeS]) =>
+      match parseMode modeS, parseM sS, parseP pS, parseM hS, parseM tS with
+      | some (streaming, sc, mode), some _sent, some ps, some h, some t =>
         if field outs "fwd" == some "0" then s!"OK b=e2e-{en}-notforwarded"
         else
         match field outs "seen", field outs "out", field outs "dl", field outs "ch", field outs "ct" with
@@ -186,33 +206,41 @@ def handle : Handler
             match judgeReq e.wire o (items e r) mOut mDl out dl with
             | some v => v
             | none =>
-              let unary := mode == "unary"
-              let (mh0, mt) := clientVisible e o unary h t
+              let (mh0, mt) := clientVisible e o streaming sc h t
+              let hb := sc.header h            -- the header block the target actually sent
+              -- HTTP: trailers are sent as headers only while no body byte has been written
+              let early := !(streaming && (forwardResponse o streaming sc h t).2.2 > 0)
               -- bridge-owned headers around the target-derived ones
               let mh : MD := match e with
-                | .http => MD.put mh0 ctKey [ascii "application/json"]
-                | .grpcweb => appendHeaders [(ctKey, [ascii "application/grpc-web+proto"])] (filterResponseMD o h)
+                | .http =>
+                  -- the bridge writes its Content-Type with the first message or with the error body;
+                  -- a streaming call that ends OK without a message writes neither
+                  if (forwardResponse o streaming sc h t).2.2 > 0 || !(streaming && sc.ok)
+                  then MD.put mh0 ctKey [ascii "application/json"] else mh0
+                | .grpcweb => appendHeaders [(ctKey, [ascii "application/grpc-web+proto"])] (filterResponseMD o hb)
                 | _ => mh0
               let ch' := dropKeys infra ch
               let mh' := dropKeys infra mh
+              -- every header: RESPONSE list applied to the HEADER block (+ on early HTTP: TRAILER list applied to the TRAILER block)
               let specH : Bool := match e with
-                | .http | .grpcweb => httpSpec o h t own ch'
+                | .http => httpSpec o hb (if early then t else []) own ch'
+                | .grpcweb => httpSpec o hb [] own ch'
                 | .ws => ch'.isEmpty
-                | _ => respSpec o.allowResp o.prefixResp h ch'
+                | _ => respSpec o.allowResp o.prefixResp hb ch'
               let specT : Bool := match e with
                 | .http => httpSpec o [] t (fun _ _ => false) ct
                 | .ws => ct.isEmpty
                 | _ => respSpec o.allowTrl o.prefixTrl t ct
-              if !specH then s!"VIOL client saw response headers not on the response allow-list model={showMD mh'}"
+              if !specH then s!"VIOL client saw response headers that the response allow-list does not license from the target's header block model={showMD mh'}"
               else if !specT then s!"VIOL client saw trailers not on the trailer allow-list model={showMD mt}"
               else if sortMD ch' != sortMD mh' then s!"DIFF model=ch:{showMD mh'}"
               else if sortMD ct != sortMD mt then s!"DIFF model=ct:{showMD mt}"
               else
-                let nt := if mOut.isEmpty && mt.isEmpty && (filterResponseMD o h).isEmpty && mDl.isNone then "" else " nt"
+                let nt := if mOut.isEmpty && mt.isEmpty && (filterResponseMD o hb).isEmpty && mDl.isNone then "" else " nt"
                 s!"OK{nt} b=e2e-{en}-{mode}-{isOpt o}-{if mDl.isSome then "dl" else "nodl"}"
           | _, _, _, _ => "BAD e2e out md"
         | _, _, _, _, _ => "BAD e2e fields"
-      | _, _, _, _ => "BAD e2e md"
+      | _, _, _, _, _ => "BAD e2e md"
     | _, _ => "BAD e2e line"
   | _, _ => "BAD c07 line"
 
